@@ -132,21 +132,22 @@ Lemma chain_read_fb (w : CW) dest : Inv SIZE (c_first w) ->
              {| c_has := true; c_first := after_read (c_first w) cc; c_rw := c_rw w |}
   else call_rw_read R dest w.
 Proof.
-  intros HI. unfold chain_read. unfold bind at 1. unfold get_reader_is_some.
-  destruct (c_has w) eqn:Eh; [|unfold bind, ret; reflexivity].
-  unfold bind at 1. unfold bind at 1. unfold call_reader_read. cbn [rd FBR].
+  intros HI. unfold chain_read. unfold bind at 1. unfold bind at 1. unfold get_reader_is_some.
+  destruct (c_has w) eqn:Eh; [|unfold ret; reflexivity].
+  unfold bind at 1. unfold call_reader_read. cbn [rd FBR].
   rewrite (io_read_spec SIZE chk (c_first w) dest HI). unfold copy_count. cbv zeta.
   set (cc := Z.min (zlen dest) (len_ (c_first w))).
   destruct (cc =? 0) eqn:Ecc.
-  - cbn [c_has c_first c_rw]. rewrite fit_same_length by reflexivity. replace (0 =? 0) with true by reflexivity. cbn [andb].
+  - cbn [c_has c_first c_rw fst snd]. rewrite fit_same_length by reflexivity. replace (0 =? 0) with true by reflexivity. cbn [andb].
     destruct (zlen dest =? 0) eqn:Ed; cbn [negb].
     + unfold ret. cbv beta iota. rewrite Eh. destruct w; cbn in *; subst; reflexivity.
     + unfold bind at 1. unfold set_reader_none, ret. cbv beta iota. cbn [c_has c_first c_rw]. reflexivity.
-  - cbn [c_has c_first c_rw].
+  - cbn [c_has c_first c_rw fst snd].
     set (src := firstn (Z.to_nat cc) (unread (c_first w))).
     assert (Hcc : 0 < cc <= len_ (c_first w) /\ cc <= zlen dest) by (pose proof (len_nonneg SIZE _ HI); pose proof (zlen_nonneg dest); unfold cc in *; lia).
     assert (Hsrc : zlen src = cc) by (unfold src; rewrite zlen_firstn, (zlen_unread SIZE _ HI); lia).
     rewrite fit_same_length by (pose proof (zlen_splice dest src 0 ltac:(lia) ltac:(lia)); unfold zlen in *; lia).
+    rewrite (zlen_splice dest src 0) by lia.
     replace ((cc =? 0) && negb (zlen dest =? 0)) with false by (rewrite Ecc; reflexivity).
     unfold ret. cbv beta iota. rewrite Eh. reflexivity.
 Qed.
